@@ -151,3 +151,26 @@ func (f *frame) sortedDeclLoops() []*loopInfo {
 	}
 	return ls
 }
+
+// isRangePhi: $i names the index phi of a range-over-slice loop (value before
+// the increment: -1 at entry), $n the iteration counter of a range-over-int
+// loop (0 at entry; the header is the loop body block).
+func isRangePhi(name string, phi *ssa.Phi) bool {
+	return (name == "$i" && phi.Comment == "rangeindex") || (name == "$n" && phi.Comment == "rangeint.iter")
+}
+
+// inRepo: is fn defined in the repository under verification?
+func inRepo(fn *ssa.Function) bool {
+	for fn.Parent() != nil {
+		fn = fn.Parent()
+	}
+	p := fn.Pkg
+	if p == nil && fn.Origin() != nil {
+		p = fn.Origin().Pkg
+	}
+	if p == nil {
+		return false
+	}
+	path := p.Pkg.Path()
+	return path == "github.com/sourcegraph/zoekt" || len(path) > 29 && path[:29] == "github.com/sourcegraph/zoekt/" || path == "unit" || len(path) > 5 && path[:5] == "unit/"
+}
